@@ -422,6 +422,8 @@ def expectations(c):
 
 # ------------------------------------------------------------------------------------------------------------------ oracle
 def run_case(c):
+    if c['family'].startswith('probe_'):
+        return run_probe(c)
     ua, ub = c['units']
     fam = c['family']
     r = {'evaluated': 2, 'nontrivial': False, 'disagreements': [], 'violations': [],
@@ -535,3 +537,125 @@ def cases(seed, n):
             yield 'elapsed%d' % i, gen_case(r2, fam)
         except (IndexError, RuntimeError):
             continue
+
+
+# ------------------------------------------------------------------------------------------------------------------ probes
+# Two confirmed deviations of the unchanged code from the property's second sentence (per-step limits follow the step's OWN length) are
+# probed by a small family on daily grids across a daylight-saving switch (a few zones, spring and autumn, the short / long day at
+# varying positions), each in two main time units:
+#   probe_profile   a plant whose start (or shutdown) ramp PROFILE pins the rate in the step of the start (before the shutdown): the
+#                   volume of that step = profile value x the step's own length               (finding F-12f: nominal step length used)
+#   probe_ramp      a plant with a ramp (largest change of the RATE from step to step) that ramps up against a market paying well:
+#                   volume of step t = min(max_cap, ramp x (t + 1)) x the step's own length   (finding F-12g: ramp converted to a volume
+#                   once, with the length of the first step)
+# A violation whose observed volumes are exactly those of the described mechanism carries kind 'profile_nominal_step' /
+# 'ramp_first_step_length'; any other departure from the statement carries kind 'profile_volume' / 'ramp_volume'.
+def gen_probe(rnd, family):
+    for _ in range(50):
+        tz = rnd.choice(ZONES)
+        sw = rnd.choice(switch_days(tz, rnd.choice([2020, 2021, 2022, 2023])))
+        n = rnd.randint(3, 6)
+        s = sw - pd.Timedelta(days=rnd.randint(0, n - 1))
+        g = {'start': iso(s), 'end': iso(s + pd.Timedelta(days=n)), 'freq': 'd', 'tz': tz}
+        pts = instants(g)
+        if len(pts) == n + 1 and pts[0] == inst(g['start'], tz) and pts[-1] == inst(g['end'], tz):
+            break
+    ua = rnd.choice(['h', 'd'])
+    c = {'family': family, 'how': 'probe', 'kind': 'daily', 'grid': g, 'units': [ua, 'd' if ua == 'h' else 'h'], 'split': None, 'afreq': None, 'win': [None, None],
+         'hi': rnd.choice([8.0, 10.0, 12.0]), 'cost': q8(rnd, 1, 4)}
+    if family == 'probe_profile':
+        which = rnd.choice(['start', 'start', 'shutdown'])
+        # the step that the profile pins: mostly the day of the switch
+        isw = [t for t in range(n) if abs(hours(pts[t], pts[t + 1]) - 24.0) > 1e-9][0]
+        t0 = isw if rnd.random() < 0.7 else rnd.randrange(n)
+        if which == 'start':
+            t0 = max(1, t0) if n > 1 else t0           # off before
+            p = [-1000.0] * t0 + [q8(rnd, 50, 150) for _ in range(n - t0)]
+        else:
+            t0 = min(n - 2, t0)                        # off afterwards
+            p = [q8(rnd, 50, 150) for _ in range(t0 + 1)] + [-1000.0] * (n - t0 - 1)
+        c.update({'which': which, 't0': t0, 'lo': 1.0, 'v': q8(rnd, 2, 6), 'p': p})
+    else:
+        c.update({'lo': 0.0, 'ramp': rnd.choice([1.0, 1.5, 2.0, 3.0]), 'p': [q8(rnd, 50, 150) for _ in range(n)]})
+    return c
+
+
+def probe_scenario(c, unit):
+    k = UNIT_H[unit]
+    g = dict(c['grid'], unit=unit)
+    pl = {'min_cap': c['lo'] * k, 'max_cap': c['hi'] * k, 'extra_costs': c['cost']}
+    if c['family'] == 'probe_profile':
+        key = 'start_ramp' if c['which'] == 'start' else 'shutdown_ramp'
+        pl.update({key + '_lower_bounds': [c['v'] * k], key + '_upper_bounds': [c['v'] * k], 'ramp_freq': c['grid']['freq']})
+    else:
+        pl['ramp'] = c['ramp'] * k
+    mk = {'price': 'p', 'min_cap': -8.0 * c['hi'] * k, 'max_cap': 0.0}
+    return {'grid': g, 'nodes': ['n'], 'prices': {'p': list(c['p'])},
+            'assets': [{'type': 'Plant', 'name': 'pl', 'nodes': ['n'], 'args': pl}, {'type': 'SimpleContract', 'name': 'mkt', 'nodes': ['n'], 'args': mk}]}
+
+
+def run_probe(c):
+    ua, ub = c['units']
+    fam = c['family']
+    pts = instants(c['grid'])
+    T = len(pts) - 1
+    dth = [hours(pts[t], pts[t + 1]) for t in range(T)]
+    r = {'evaluated': 2, 'nontrivial': False, 'disagreements': [], 'violations': [],
+         'features': ['stream:elapsed-time-probes', 'el:' + fam, 'el:zone:%s' % c['grid']['tz'], 'el:units:%s<->%s' % tuple(sorted(c['units'])),
+                      'el:odd-day-at:%d' % [t for t in range(T) if abs(dth[t] - 24.0) > 1e-9][0]]}
+    if fam == 'probe_profile':
+        t0 = c['t0']
+        on = range(t0, T) if c['which'] == 'start' else range(0, t0 + 1)
+        want = [(c['v'] if t == t0 else c['hi']) * dth[t] if t in on else 0.0 for t in range(T)]
+        mech = [(c['v'] * 24.0 if t == t0 else c['hi'] * dth[t]) if t in on else 0.0 for t in range(T)]      # profile value x NOMINAL step
+        text = 'plant (load %g..%g per h, %s profile [%g per h], ramp_freq = grid frequency) that %s step %d (a day of %g h)' % (
+            c['lo'], c['hi'], c['which'], c['v'], 'starts in' if c['which'] == 'start' else 'is on for the last time in', t0, dth[t0])
+        kinds = ('profile_nominal_step', 'profile_volume')
+    else:
+        want = [min(c['hi'], c['ramp'] * (t + 1)) * dth[t] for t in range(T)]
+        mech, prev = [], 0.0
+        for t in range(T):
+            prev = min(c['hi'] * dth[t], prev + c['ramp'] * dth[0])                                         # ramp as a VOLUME, from the first step's length
+            mech.append(prev)
+        text = 'plant (load 0..%g per h, ramp %g per h from step to step, off before) ramping up against a market that pays well; days of %s h' % (
+            c['hi'], c['ramp'], [round(x, 6) for x in dth])
+        kinds = ('ramp_first_step_length', 'ramp_volume')
+    r['features'].append('el:probe-mechanism-differs' if max(abs(a - b) for a, b in zip(want, mech)) > 1e-9 else 'el:probe-mechanism-agrees')
+    sols, scs = {}, {}
+    for u in (ua, ub):
+        scs[u] = probe_scenario(c, u)
+        sols[u] = solve(scs[u], mip=True)
+    facts = {'what': 'elapsed_time_probe', 'family': fam, 'units': [ua, ub], 'zone': c['grid']['tz'], 'step_hours': dth}
+    r['observed'] = {u: sols[u].get('value', sols[u]['status']) for u in (ua, ub)}
+    if any(sols[u]['status'] != 'ok' for u in (ua, ub)):
+        r['features'].append('el:status:' + '/'.join(sorted({sols[u]['status'].split(':')[0] for u in (ua, ub)})))
+        r['violations'].append({'oracle': 'limits_follow_step_length', 'detail': '%s: the real code reports %s with main time unit %s, %s with %s || %s' % (
+            text, (sols[ua]['status'] + ' ' + sols[ua].get('msg', '')).strip(), ua, (sols[ub]['status'] + ' ' + sols[ub].get('msg', '')).strip(), ub, describe(scs[ua], None)),
+            'facts': dict(facts, kind='status')})
+        return r
+    if abs(sols[ua]['value'] - sols[ub]['value']) > 1e-6 * max(1.0, abs(sols[ua]['value'])):
+        r['violations'].append({'oracle': 'unit_change', 'detail': '%s: optimal value %.9g with main time unit %s, %.9g with %s || %s' % (
+            text, sols[ua]['value'], ua, sols[ub]['value'], ub, describe(scs[ua], None)), 'facts': dict(facts, kind='value')})
+    for u in (ua, ub):
+        got = [float(x) for x in col(sols[u]['dispatch'], 'pl')]
+        r['nontrivial'] = r['nontrivial'] or max(abs(x) for x in got) > 1e-9
+        tol = 1e-6 * max(1.0, max(abs(x) for x in want))
+        bad = [t for t in range(T) if abs(got[t] - want[t]) > tol]
+        if bad:
+            t = bad[0]
+            as_mech = all(abs(got[i] - mech[i]) <= tol for i in range(T))
+            r['violations'].append({'oracle': 'limits_follow_step_length',
+                                    'detail': '%s: volumes per step %s; rate x own length of each step gives %s (step %d, %g h long: %.9g instead of %.9g)%s || input (%s): %s' % (
+                                        text, [round(x, 6) for x in got], [round(x, 6) for x in want], t, dth[t], got[t], want[t],
+                                        '; the volumes are those of the rate x the NOMINAL step of 24 h' if as_mech and fam == 'probe_profile' else
+                                        '; the volumes are those of a ramp turned into a volume with the length of the FIRST step' if as_mech else '', u, describe(scs[u], None)),
+                                    'facts': dict(facts, kind=kinds[0] if as_mech else kinds[1], unit=u, step=t)})
+    return r
+
+
+def probe_cases(seed, n):
+    rnd = random.Random(seed * 1000003 + 120013)
+    for i in range(n):
+        r2 = random.Random(rnd.getrandbits(48))
+        fam = ['probe_profile', 'probe_ramp'][i % 2]
+        yield 'elprobe%d' % i, gen_probe(r2, fam)
